@@ -100,6 +100,9 @@ def alphabet():
     for h in HOOKS:
         ops.append(('add_hook', h))
         ops.append(('remove_hook', h))
+    # hook removal by a wildcard pattern is refused by the router: a refused operation leaves nothing behind
+    for h in ('/a/*', '/h/*', '/a*'):
+        ops.append(('remove_hook', h))
     # the same function object installed again (after a removal, or twice), as an application re-running its set-up does
     for h in ('/a', '/h'):
         ops.append(('add_hook', h, 'same'))
@@ -302,6 +305,20 @@ class Sys:
             else:
                 ctx.count('ops_rejected')
                 ctx.violation(f'add_hook-rejected-without-reason:{out}', f'{op}', None)
+        elif kind == 'remove_hook' and op[1].endswith('*'):
+            ctx.count('op_remove_hook_by_wildcard')
+            if ok:
+                # (should a router accept it, what lies below the prefix is as unspecified as after a prefix removal of routes)
+                pre = op[1][1:-1]
+                for h, pat in HOOKS.items():
+                    if pat.startswith(pre) and h in self.hooks:
+                        self.unspec.add(h)
+                        self.unspec_ids.add(self.hooks.pop(h))
+                    if pat.startswith(pre) and h in self.hooks404:
+                        self.unspec.add(h)
+                        self.unspec_ids.add(self.hooks404.pop(h))
+            else:
+                ctx.count('ops_rejected')
         elif kind == 'remove_hook':
             ctx.count('op_remove_hook')
             if not ok:
@@ -719,6 +736,9 @@ def scripted_histories():
         out.append(base + [('remove_name', 'n1'), ('add', named, 'POST', 'n2', False), ('remove_name', 'n2')])
         out.append(base[::-1] + [('remove', other)])
         out.append(base + [('remove_prefix', '/s/*')])
+    for r1, r2, pre in (('/a/<x>', '/a/b', '/a/*'), ('/h/x', '/h/y', '/h/*'), ('/a', '/ab', '/a*')):
+        out.append([('add', r1, 'GET', None, False), ('add', r2, 'GET', 'n1', False), ('remove_hook', pre)])
+        out.append([('add_hook', '/a'), ('add', r1, 'GET', None, False), ('remove_hook', pre), ('add', r2, 'POST', None, False)])
     for h in ('/a', '/h'):
         same = ('add_hook', h, 'same')
         out.append([same, ('remove_hook', h), same])
